@@ -186,8 +186,13 @@ where
 
                         self.send_to_sm_worker(&mut command_batch).await?;
 
-                        if last_error.is_none()
-                            && let Err(e) = self.apply_config_change(entry).await
+                        // Every committed config entry is applied to the membership, also after an
+                        // earlier one of the same batch failed: all entries of the batch are handed
+                        // to the state machine (and count as applied) in any case, so skipping the
+                        // later ones here made the membership depend on how commit notifications
+                        // happened to be batched. The first error is still the one reported.
+                        if let Err(e) = self.apply_config_change(entry).await
+                            && last_error.is_none()
                         {
                             last_error = Some(e);
                         }
